@@ -231,6 +231,7 @@ func runC12(r *mon.Run) {
 	r.FloorFam("oracle", 500)
 	r.FloorFam("edge-api", 20)
 	r.FloorFam("trapdoor-sqrt", 8)
+	r.FloorFam("degenerate-commitments", 8)
 	r.FloorFam("edge-ref", 20)
 	r.FloorFam("transplant", 50)
 	r.FloorFam("alter", 100)
@@ -394,6 +395,23 @@ func c12Edges(x *c12ctx, jr *rand.Rand, idx int) {
 				x.verifyAndJudge("trapdoor-sqrt", fmt.Sprintf("m=%d claims m >= m+7 with d_1 = sqrt(-7-%d^2) mod ord (%d bits)", m, d2, rt.BitLen()), d, cred, ctx, nonce, false)
 			}
 			break
+		}
+	}
+	// ---- degenerate commitments: C_i = 0 (or N) are not group elements; a verifier that multiplies them into its reconstruction gets 0
+	// for every commitment, whatever the statement. False statement m >= m+1000 with arbitrary "squares":
+	for _, fc := range []*big.Int{bi(0), cp(pk.N)} {
+		var d *gabi.ProofD
+		pv, _ := mon.Try(func() {
+			dis, hid := hiddenOf(cred, []int{1})
+			p := refimpl.NewDProver(x.key.PK, cred.C.Signature, dis, hid)
+			rp := &refimpl.RangeProver{PK: x.key.PK, Index: 2, M: cred.NormLedger(2), MRand: p.R[2], Sign: 1, A: 1, K: bi(m + 1000), Ld: 128, D: []*big.Int{bi(1), bi(2), bi(3), bi(4)}, ForceC: fc}
+			p.Extra = rp.Commit()
+			c := refimpl.Challenge(ctx, nonce, p.Commit(), false)
+			d = p.Respond(c)
+			d.RangeProofs = map[int][]*rangeproof.Proof{2: {rp.Respond(c)}}
+		})
+		if pv == nil && d != nil {
+			x.verifyAndJudge("degenerate-commitments", fmt.Sprintf("m=%d claims m >= m+1000 with every C_i = %s", m, map[bool]string{true: "0", false: "N"}[fc.Sign() == 0]), d, cred, ctx, nonce, false)
 		}
 	}
 	// ---- through the reference prover: true relation m >= 1 (delta = m-1) with odd descriptor fields
